@@ -299,7 +299,9 @@ func (g gStyle) validPerStandard() bool {
 	case "alphabetic", "numeric":
 		return len(g.symbols) >= 2
 	case "additive":
-		return len(g.additive) >= 1
+		// the standard asks for one tuple; the code (and its test TestCounterStyleInvalid) for two:
+		// documented deviation pinned by the repository's test suite, not judged
+		return len(g.additive) >= 2
 	case "extends":
 		return len(g.symbols) == 0
 	}
@@ -310,7 +312,7 @@ func str(s string) pr.NamedString { return pr.NamedString{Name: "string", String
 
 // intentMismatch compares the descriptors the real parser produced with what the rule says; returns
 // the first differing field ("" = none).  A range with a lower bound `infinite` is compared as
-// [MinInt32, hi] (the parsed form has no way to say -inf other than a very small bound).
+// [math.MinInt, hi] (the parsed form has no other way to say -inf).
 func (g gStyle) intentMismatch(d counters.CounterStyleDescriptors) (string, string) {
 	wantSys := counters.CounterStyleSystem{System: g.system}
 	switch g.system {
@@ -352,10 +354,10 @@ func (g gStyle) intentMismatch(d counters.CounterStyleDescriptors) (string, stri
 	for i, gr := range g.ranges {
 		lo, hi := gr.lo, gr.hi
 		if gr.loInf {
-			lo = math.MinInt32
+			lo = math.MinInt
 		}
 		if gr.hiInf {
-			hi = math.MaxInt32
+			hi = math.MaxInt
 		}
 		if d.Range.Ranges[i] != [2]int{lo, hi} {
 			return "range", fmt.Sprintf("range %d parsed %v, rule says [%d, %d]", i, d.Range.Ranges[i], lo, hi)
